@@ -393,15 +393,13 @@ func (c *Ctx) checkCacheURL() {
 	if bc == nil {
 		c.viol(rule, "domainPrefix tries the basic algorithm", p.Pos(dpx.Pos()), "no call of domainPrefixBasic")
 	} else {
-		short := condEdges(dpx, true, func(a Atom) bool {
-			// len(prefix) <= 63
-			if a.Op != token.LEQ {
-				return false
-			}
-			k, ok := constInt(a.Y)
-			cc, _, okc := callResult(a.X)
-			return ok && k == 63 && okc && calleeName(cc) == "builtin.len" && isResultOfCall(cc.Call.Args[0], bc, 0)
-		})
+		isLen := func(v ssa.Value) bool {
+			cc, _, okc := callResult(v)
+			return okc && calleeName(cc) == "builtin.len" && isResultOfCall(cc.Call.Args[0], bc, 0)
+		}
+		is63 := func(v ssa.Value) bool { k, ok := constInt(v); return ok && k == 63 }
+		is64 := func(v ssa.Value) bool { k, ok := constInt(v); return ok && k == 64 }
+		short := append(cmpEdges(dpx, "<=", isLen, is63), cmpEdges(dpx, "<", isLen, is64)...)
 		n := 0
 		for _, r := range returnsOf(dpx) {
 			if !isResultOfCall(r.Results[0], bc, 0) {
